@@ -25,6 +25,7 @@ type specEnv struct {
 	pkg       *types.Package
 	bound     []map[string]sval
 	locals    bool // named local variables of the function under verification are visible
+	owner     *ssa.Function // the function whose parameter / captured-variable names this environment uses (nil: unknown)
 }
 
 func (vc *VC) pkgTypes(path string) *types.Package {
@@ -207,9 +208,19 @@ func (vc *VC) trIdent(e *EIdent, env *specEnv, c *Clause) sval {
 		return v
 	}
 	if v, ok := env.vars[e.Name]; ok {
+		if recorded != nil && env.locals {
+			for _, p := range vc.fn.Params {
+				if p.Name() == e.Name {
+					vc.recordName(e.Name, "param", p.Type(), nil)
+				}
+			}
+		}
 		return v
 	}
 	if cell, ok := env.freeCells[e.Name]; ok {
+		if recorded != nil {
+			vc.recordName(e.Name, "freevar", deref(cell.typ), nil)
+		}
 		// captured variable: the spec name denotes the current content of the cell
 		t := deref(cell.typ)
 		if _, isStruct := structOf(t); isStruct {
@@ -240,6 +251,20 @@ func (vc *VC) trIdent(e *EIdent, env *specEnv, c *Clause) sval {
 		}
 		if best >= 0 {
 			r := refs[best]
+			if recorded != nil {
+				t := r.v.Type()
+				if r.cell {
+					t = deref(t)
+				}
+				var dv ssa.Value
+				for _, rr := range refs {
+					if !rr.cell && vc.defOf(rr.v) != "" {
+						dv = rr.v
+						break
+					}
+				}
+				vc.recordName(e.Name, "local", t, dv)
+			}
 			if r.cell {
 				ct := deref(r.v.Type())
 				if _, isStruct := structOf(ct); isStruct {
@@ -262,6 +287,18 @@ func (vc *VC) trIdent(e *EIdent, env *specEnv, c *Clause) sval {
 	if env.pkg != nil {
 		if obj := env.pkg.Scope().Lookup(e.Name); obj != nil {
 			return vc.trObject(obj, env, c)
+		}
+	}
+	// the variable may have been renamed: fall back to the recorded kind/type/definition of the name
+	owner := env.owner
+	if owner == nil && env.locals {
+		owner = vc.fn
+	}
+	if owner != nil && !vc.rebinding {
+		if n := vc.rebind(owner, e.Name); n != "" {
+			vc.rebinding = true
+			defer func() { vc.rebinding = false }()
+			return vc.trIdent(&EIdent{Name: n}, env, c)
 		}
 	}
 	vc.specFail(c, "unknown identifier %q", e.Name)
@@ -615,6 +652,13 @@ func (vc *VC) trCall(e *ECall, env *specEnv, c *Clause) sval {
 		for i, fv := range f.FreeVars {
 			if fv.Name() == vs.V {
 				return sval{term: fmt.Sprintf("(%s %s)", vc.captFun(f, i), x.term), typ: deref(fv.Type())}
+			}
+		}
+		if n := vc.rebind(f, vs.V); n != "" {
+			for i, fv := range f.FreeVars {
+				if fv.Name() == n {
+					return sval{term: fmt.Sprintf("(%s %s)", vc.captFun(f, i), x.term), typ: deref(fv.Type())}
+				}
 			}
 		}
 		vc.specFail(c, "%s captures no variable %q", fs.V, vs.V)
